@@ -93,6 +93,9 @@ def _run_shard(shard, shard_seed, tier, outfile, hangfile, excluded):
     """Executed in a forked child.  Writes a json result to ``outfile``."""
     t0 = time.time()
     sys.unraisablehook = lambda arg: None  # leftovers of leaked doubles are not library output
+    import warnings
+
+    warnings.filterwarnings("ignore", message="coroutine .* was never awaited")
     watch = _Watch(hangfile)
     stats = {"evaluations": 0, "nontrivial": set(), "samples": [], "labels": Counter(),
              "excluded": 0}
